@@ -47,7 +47,7 @@ theorem engine_avail (ctx : Ctx) (st0 : St) :
       · exact avp_ok h0 _
       · split
         · rename_i hon
-          refine avp_err h0 _ ⟨?_, ?_⟩
+          refine avp_err h0 _ ⟨⟨?_, ?_⟩, fun hh => by simp [DErr.hasMissingDeps, DErr.chain] at hh⟩
           · intro p s _
             exact ⟨.ctor n, Or.inl rfl, hstk n hon (.ctor n) (Or.inl rfl)⟩
           · intro ks hk; simp [DErr.rootCause] at hk
@@ -70,7 +70,7 @@ theorem engine_avail (ctx : Ctx) (st0 : St) :
               right
               exact ⟨.ctor n, Or.inl rfl, by rw [← hst.2.1] at hk; exact hk, rfl⟩
             · intro _ s2 hs2 hk2
-              refine avp_bind s2 (avp_wrapErr _ rootCause_argsFailed s2 ?_) ?_
+              refine avp_bind s2 (avp_wrapErr _ rootCause_argsFailed hmd_argsFailed s2 ?_) ?_
               · have := ihL (st.ctor n).params (st0.ctor n).origS s2 hs2
                   (by rw [← hst.2.1]; exact hstk1.same hk2)
                 refine this.mono ?_ ?_
@@ -110,7 +110,7 @@ theorem engine_avail (ctx : Ctx) (st0 : St) :
             right
             exact ⟨.deco d, Or.inl rfl, by rw [← hst.2.1] at hk; exact hk, hchk⟩
           · intro _ s2 hs2 hk2
-            refine avp_bind s2 (avp_wrapErr _ rootCause_argsFailed s2 ?_) ?_
+            refine avp_bind s2 (avp_wrapErr _ rootCause_argsFailed hmd_argsFailed s2 ?_) ?_
             · have := ihL (st.deco d).params (st.deco d).s s2 hs2 (by
                 rw [← hst.2.1, ← hst.2.2.2.1]
                 refine Stk.same (st := st) ?_ (SameStk.trans (fun m => rfl) hk2)
@@ -142,7 +142,7 @@ theorem engine_avail (ctx : Ctx) (st0 : St) :
           rcases hw with rfl | ⟨l', hl', hr⟩
           · exact Reach.decoSelf hmem hdec0
           · exact Reach.decoDep hmem hdec0 hl' hr
-        refine avp_bind st (avp_wrapErr _ (rootCause_paramSingle k 1) st ?_) ?_
+        refine avp_bind st (avp_wrapErr _ (rootCause_paramSingle k 1) (hmd_paramSingle k 1) st ?_) ?_
         · refine (ihD d ds st h0 (Or.inr ⟨k, hdec0⟩) (hstk.mono hsub)).mono hsub ?_
           intro c' k' hf; exact hf.elim
         · intro _ s' hs' _
@@ -158,7 +158,7 @@ theorem engine_avail (ctx : Ctx) (st0 : St) :
             split
             · exact avp_ok h0 _
             · rename_i hopt
-              refine avp_err h0 _ ⟨?_, ?_⟩
+              refine avp_err h0 _ ⟨⟨?_, ?_⟩, fun _ => ⟨_, rfl⟩⟩
               · intro p s hr; simp [DErr.rootCause] at hr
               · intro ks hr
                 simp only [DErr.rootCause, DErr.missingTypes.injEq] at hr
@@ -217,7 +217,7 @@ theorem engine_avail (ctx : Ctx) (st0 : St) :
             · exact Reach.decoDep hmem hdec0 hl' hr
           split
           · exact avp_ok hs1 _
-          · refine avp_wrapErr _ (rootCause_paramGroup k _) s1 ?_
+          · refine avp_wrapErr _ (rootCause_paramGroup k _) (hmd_paramGroup k _) s1 ?_
             refine (ihD d s s1 hs1 (Or.inr ⟨k, hdec0⟩) ((hstk.same hk1).mono hsub)).mono hsub ?_
             intro c' k' hf; exact hf.elim
         · exact avp_ok hs1 _
@@ -242,7 +242,7 @@ theorem engine_avail (ctx : Ctx) (st0 : St) :
                 rcases hw with rfl | ⟨l', hl', hr⟩
                 · exact Reach.grpSelf hmem hn0
                 · exact Reach.grpDep hmem hn0 hl' hr
-              refine avp_wrapErr _ (rootCause_paramGroup k _) s4 ?_
+              refine avp_wrapErr _ (rootCause_paramGroup k _) (hmd_paramGroup k _) s4 ?_
               rw [← hst.2.2.2.2.1]
               refine (ihC n s4 hs4 ((hstk.same (hk2.trans (hk3.trans hk4))).mono hsub)).mono hsub ?_
               intro c' k' hf; exact hf.elim
